@@ -174,6 +174,43 @@ Proof.
 Qed.
 
 (* ------------------------------------------------------------------------- *)
+(** * The guard of the empty-line remover: [residue_is_blank] *)
+
+(** Backwards over blanks from [p] down to the start of the string or to a line break. *)
+Lemma residue_is_blank_true : forall s ls p,
+  ls <= p -> p <= length s ->
+  (forall i b, ls <= i -> i < p -> nth_error s i = Some b -> is_blank b = true) ->
+  (ls = 0 \/ nth_error s (ls - 1) = Some NL) ->
+  residue_is_blank s p = true.
+Proof.
+  intros s ls. induction p as [|c IH]; intros H1 H2 Hbl Hls; [reflexivity|].
+  cbn [residue_is_blank].
+  destruct (Nat.eq_dec ls (S c)) as [E|NE].
+  - destruct Hls as [Z|Nl]; [lia|].
+    replace (ls - 1) with c in Nl by lia. rewrite Nl. reflexivity.
+  - destruct (nth_error_ex s c) as [b Nc]; [lia|]. rewrite Nc.
+    rewrite (Hbl c b); [|lia | lia | exact Nc].
+    apply IH; [lia | lia | | exact Hls].
+    intros i d Hi1 Hi2 Hn. apply (Hbl i d); [lia | lia | exact Hn].
+Qed.
+
+(** Backwards over blanks from [p] down to a byte that is neither a blank nor a line break. *)
+Lemma residue_is_blank_false : forall s p i b,
+  i < p -> nth_error s i = Some b -> is_blank b = false -> b <> NL ->
+  (forall j c, i < j -> j < p -> nth_error s j = Some c -> is_blank c = true) ->
+  residue_is_blank s p = false.
+Proof.
+  intros s p i b Hi Ni Bb Hne. apply beq_neq in Hne.
+  induction p as [|c IH]; intros Hbl; [lia|].
+  cbn [residue_is_blank].
+  destruct (Nat.eq_dec i c) as [E|NE].
+  - subst c. rewrite Ni, Bb. exact Hne.
+  - destruct (nth_error s c) as [d|] eqn:Nc; [|reflexivity].
+    rewrite (Hbl c d); [|lia | lia | exact Nc].
+    apply IH; [lia|]. intros j e Hj1 Hj2 Hn. apply (Hbl j e); [lia | lia | exact Hn].
+Qed.
+
+(* ------------------------------------------------------------------------- *)
 (** * two_prev / two_next at a seam *)
 
 (** The hypotheses on the seam, bundled: [p] holds a line break, [ls >= 1] is the start of its
@@ -296,15 +333,25 @@ Proof.
 Qed.
 
 Lemma empty_line_remover_nl s p : is_boundary s p = true -> nth_error s p = Some NL ->
+  residue_is_blank s p = true ->
   empty_line_remover s p =
   if is_none (two_next s p) && is_none (two_prev s p) then Ok (p, p + 1) else Ok (p, p).
 Proof.
-  intros Hb Np. unfold empty_line_remover. rewrite Hb, Np.
+  intros Hb Np Hr. unfold empty_line_remover. rewrite Hb, Np, Hr.
   replace (beq NL NL) with true by reflexivity. reflexivity.
+Qed.
+
+(** When the line is not blank up to [p] the guard fires and nothing is removed. *)
+Lemma empty_line_remover_nonblank_residue s p : is_boundary s p = true ->
+  residue_is_blank s p = false -> empty_line_remover s p = Ok (p, p).
+Proof.
+  intros Hb Hr. unfold empty_line_remover. rewrite Hb, Hr. cbn [negb].
+  destruct (negb _); reflexivity.
 Qed.
 
 (** [format_block] in terms of the results of [indent_remover], [two_prev] and [two_next]. *)
 Lemma format_block_nl s p a : is_boundary s p = true -> nth_error s p = Some NL ->
+  residue_is_blank s p = true ->
   indent_remover s p = Ok (a, p) -> a <= p ->
   format_block s p =
   Ok (match two_prev s p with Some q => Nat.min (q + 1) a | None => a end,
@@ -313,9 +360,9 @@ Lemma format_block_nl s p a : is_boundary s p = true -> nth_error s p = Some NL 
       | None => match two_prev s p with Some _ => p | None => p + 1 end
       end).
 Proof.
-  intros Hb Np HI Ha. unfold format_block, seam_formatters. cbn [foldM].
+  intros Hb Np Hr HI Ha. unfold format_block, seam_formatters. cbn [foldM].
   rewrite HI. cbn [bind fst snd].
-  rewrite (empty_line_remover_nl s p Hb Np).
+  rewrite (empty_line_remover_nl s p Hb Np Hr).
   unfold prev_line_break_remover, next_line_break_remover.
   destruct (two_next s p) as [q'|]; destruct (two_prev s p) as [q|];
     cbn [is_none andb bind fst snd]; f_equal; f_equal; lia.
@@ -340,7 +387,10 @@ Theorem seam_hull : forall s ls p,
 Proof.
   intros s ls p Hs Np Hb H1 H2 Nl Hbl.
   assert (seam s ls p) as Hseam by (unfold seam; auto).
-  pose proof (format_block_nl s p ls Hb Np (indent_remover_seam s ls p Hb Hseam) H2) as FB.
+  pose proof (nth_error_lt s p NL Np) as Lp.
+  assert (residue_is_blank s p = true) as Hr
+    by (apply (residue_is_blank_true s ls p H2); [lia | exact Hbl | right; exact Nl]).
+  pose proof (format_block_nl s p ls Hb Np Hr (indent_remover_seam s ls p Hb Hseam) H2) as FB.
   split; [|split; [|split]].
   - intros Hp Hn. rewrite FB.
     rewrite (two_prev_not_blank s ls p Hs Hseam Hp), (two_next_not_blank s p Hs Np Hb Hn).
@@ -367,6 +417,105 @@ Proof.
   - intros Hb. unfold empty_line_remover. rewrite Hb, Np, Hne. reflexivity.
 Qed.
 
+(* an inline removal at the end of a line (the seam is at a line break, but code precedes it on the
+   line) keeps the line break: the line is not joined with the next one.  [wf_utf8 s] is needed for
+   the indent remover only: its backward scan skips positions that are not character boundaries, so
+   in an ill-formed string ([NL; 128; NL], p = 2, i = 1) it can run past a stray continuation byte
+   at [i] down to an earlier line break. *)
+Lemma empty_line_remover_after_code : forall s p i b,
+  is_boundary s p = true ->
+  i < p -> nth_error s i = Some b -> is_blank b = false -> b <> NL ->
+  (forall j c, i < j -> j < p -> nth_error s j = Some c -> is_blank c = true) ->
+  empty_line_remover s p = Ok (p, p).
+Proof.
+  intros s p i b Hb Hi Ni Bb Hne Hbl.
+  apply (empty_line_remover_nonblank_residue s p Hb).
+  apply (residue_is_blank_false s p i b Hi Ni Bb Hne Hbl).
+Qed.
+
+Lemma indent_loop_after_code : forall s p i b,
+  wf_utf8 s = true ->
+  i < p -> nth_error s i = Some b -> is_blank b = false -> b <> NL ->
+  (forall j c, i < j -> j < p -> nth_error s j = Some c -> is_blank c = true) ->
+  indent_loop s p = None.
+Proof.
+  intros s p i b Hs Hi Ni Bb Hne Hbl.
+  destruct (indent_loop s p) as [c|] eqn:IL; [|reflexivity]. exfalso.
+  apply indent_loop_spec in IL. destruct IL as (c' & -> & H1 & H2 & H3 & H4).
+  pose proof (after_nl_boundary s c' Hs H3 H2) as Hb'.
+  destruct (skipped_run_range s (S c') p Hs Hb') as [_ Hrun];
+    [lia | intros j Hj1 Hj2; apply H4; lia|].
+  destruct (Nat.lt_trichotomy i c') as [L | [E | G]].
+  - (* a line break strictly between i and p *)
+    pose proof (Hbl c' NL L H1 H2) as K. discriminate K.
+  - subst c'. rewrite Ni in H2. inversion H2. contradiction.
+  - (* i lies in the run the scan passed: it would be a blank *)
+    destruct (Hrun i) as (_ & d & Nd & Bd); [lia | lia|].
+    rewrite Ni in Nd. inversion Nd; subst d. congruence.
+Qed.
+
+(* the same without [wf_utf8 s], when the byte at [i] is known not to be a continuation byte *)
+Lemma indent_loop_after_code_noncont : forall s p i b,
+  i < p -> nth_error s i = Some b -> is_blank b = false -> b <> NL -> is_cont b = false ->
+  (forall j c, i < j -> j < p -> nth_error s j = Some c -> is_blank c = true) ->
+  indent_loop s p = None.
+Proof.
+  intros s p i b Hi Ni Bb Hne Hc. apply beq_neq in Hne.
+  induction p as [|k IH]; intros Hbl; [lia|].
+  cbn [indent_loop]. destruct (Nat.eq_dec i k) as [E|NE].
+  - subst k. rewrite (noncont_boundary s i b Ni Hc), Ni.
+    unfold is_blank in Bb. rewrite Bb, Hne. reflexivity.
+  - assert (indent_loop s k = None) as IH'
+      by (apply IH; [lia|]; intros j e Hj1 Hj2 Hn; apply (Hbl j e); [lia | lia | exact Hn]).
+    destruct (is_boundary s k); [|exact IH'].
+    destruct (nth_error s k) as [d|] eqn:Nk; [|reflexivity].
+    assert (is_blank d = true) as Bd by (apply (Hbl k d); [lia | lia | exact Nk]).
+    unfold is_blank in Bd. rewrite Bd. exact IH'.
+Qed.
+
+Lemma indent_remover_no_indent s p : indent_loop s p = None -> indent_remover s p = Ok (p, p).
+Proof.
+  intros IL. unfold indent_remover. rewrite IL. destruct (_ || _); reflexivity.
+Qed.
+
+Theorem seam_after_code_keeps_line_break : forall s p i b,
+  wf_utf8 s = true ->
+  is_boundary s p = true -> nth_error s p = Some NL ->
+  i < p -> nth_error s i = Some b -> is_blank b = false -> b <> NL ->
+  (forall j c, i < j -> j < p -> nth_error s j = Some c -> is_blank c = true) ->
+  empty_line_remover s p = Ok (p, p) /\ indent_remover s p = Ok (p, p).
+Proof.
+  intros s p i b Hs Hb Np Hi Ni Bb Hne Hbl. split.
+  - apply (empty_line_remover_after_code s p i b Hb Hi Ni Bb Hne Hbl).
+  - apply indent_remover_no_indent.
+    apply (indent_loop_after_code s p i b Hs Hi Ni Bb Hne Hbl).
+Qed.
+
+(* variant for an ill-formed string: enough that the byte at [i] is not a continuation byte *)
+Theorem seam_after_code_keeps_line_break_noncont : forall s p i b,
+  is_cont b = false ->
+  is_boundary s p = true -> nth_error s p = Some NL ->
+  i < p -> nth_error s i = Some b -> is_blank b = false -> b <> NL ->
+  (forall j c, i < j -> j < p -> nth_error s j = Some c -> is_blank c = true) ->
+  empty_line_remover s p = Ok (p, p) /\ indent_remover s p = Ok (p, p).
+Proof.
+  intros s p i b Hc Hb Np Hi Ni Bb Hne Hbl. split.
+  - apply (empty_line_remover_after_code s p i b Hb Hi Ni Bb Hne Hbl).
+  - apply indent_remover_no_indent.
+    apply (indent_loop_after_code_noncont s p i b Hi Ni Bb Hne Hc Hbl).
+Qed.
+
+(* the extra hypothesis is needed: "\n", a stray continuation byte, "\n" *)
+Example ex_after_code_needs_wf :
+  let s := [NL; 128%N; NL] in
+  is_boundary s 2 = true /\ nth_error s 2 = Some NL /\ nth_error s 1 = Some 128%N /\
+  is_blank 128%N = false /\ wf_utf8 s = false /\
+  empty_line_remover s 2 = Ok (2, 2) /\ indent_remover s 2 = Ok (1, 2).
+Proof. vm_compute. repeat split; reflexivity. Qed.
+(* "xy \ny" with the seam at the line break, p = 3: nothing goes, the line break stays *)
+Example ex_after_code : format_block [X; Y; SP; NL; Y] 3 = Ok (3, 3).
+Proof. vm_compute. reflexivity. Qed.
+
 (* known finding KF1, stated as a theorem about the model: at the start of the file the indentation
    residue is NOT removed although the line break is (neither neighbour blank) *)
 Theorem seam_at_file_start : forall s p,
@@ -381,7 +530,10 @@ Proof.
     destruct (Nat.leb_spec (length s) p) as [L|_]; [lia|].
     replace (beq NL NL) with true by reflexivity. cbn [negb orb].
     rewrite (indent_loop_blank_none s p Hbl). reflexivity. }
-  rewrite (format_block_nl s p p Hb Np HI (le_n p)).
+  assert (residue_is_blank s p = true) as Hr.
+  { apply (residue_is_blank_true s 0 p); [lia | lia | | left; reflexivity].
+    intros i b _ Hi Hnb. apply (Hbl i b Hi Hnb). }
+  rewrite (format_block_nl s p p Hb Np Hr HI (le_n p)).
   assert (two_prev s p = None) as ->
     by (unfold two_prev; rewrite (find_prev_lb_blank_none s true p Hbl); reflexivity).
   rewrite (two_next_not_blank s p Hs Np Hb Hn). reflexivity.
@@ -391,6 +543,10 @@ Qed.
 Print Assumptions seam_hull.
 Print Assumptions seam_not_at_line_break.
 Print Assumptions seam_at_file_start.
+Print Assumptions residue_is_blank_true.
+Print Assumptions residue_is_blank_false.
+Print Assumptions seam_after_code_keeps_line_break.
+Print Assumptions seam_after_code_keeps_line_break_noncont.
 Print Assumptions prev_line_blank_unique.
 Print Assumptions next_line_blank_unique.
 Print Assumptions prev_line_cases.
